@@ -9,7 +9,7 @@ for path in sys.argv[1:]:
         if m:
             res[m.group(1)] = tuple(int(x) for x in m.groups()[1:])
 rows = []
-for name in sorted(os.listdir("/verif/seeded")):
+for name in sorted(n for n in os.listdir("/verif/seeded") if re.match(r"C\d+_\w$", n)):
     meta = json.load(open("/verif/seeded/%s/meta.json" % name))
     fn = ", ".join(meta.get("functions", []))[:70]
     what = meta.get("summary", "").replace("|", "/").replace("\n", " ")
